@@ -210,7 +210,7 @@ func init() {
 			return "", err
 		}
 		sb.WriteString(r9)
-		r12, err := c14Round12Facts(fo)
+		r12, err := c14Round12Facts(repo, fo)
 		if err != nil {
 			return "", err
 		}
